@@ -46,6 +46,10 @@ pub trait Tab: Sized + Clone + Eq + Ord + Hash + 'static {
     fn c_from_cofactors(c0: &Self, c1: &Self, i: usize) -> Self;
     fn iter(n: usize) -> Box<dyn Iterator<Item = Self>>;
     fn bdd(list: &[Self]) -> usize;
+    /// Lut -> LutN (N = own size) -> Lut
+    fn conv_rt(&self) -> Result<Self, ()>;
+    /// Lut -> LutM -> Lut for an arbitrary static size M
+    fn conv_try(&self, m: usize) -> Result<Self, ()>;
 
     // shared (identical method names on both types)
     fn nv(&self) -> usize;
@@ -307,6 +311,12 @@ impl Tab for Lut {
     fn bdd(list: &[Self]) -> usize {
         Lut::bdd_complexity(list)
     }
+    fn conv_rt(&self) -> Result<Self, ()> {
+        self.conv_try(self.num_vars())
+    }
+    fn conv_try(&self, m: usize) -> Result<Self, ()> {
+        crate::with_static!(m, L, L::try_from(self.clone()).map(Lut::from))
+    }
     shared_methods!();
 }
 
@@ -368,6 +378,12 @@ impl<const N: usize, const T: usize> Tab for StaticLut<N, T> {
     }
     fn bdd(list: &[Self]) -> usize {
         Self::bdd_complexity(list)
+    }
+    fn conv_rt(&self) -> Result<Self, ()> {
+        panic!("HARNESS: conversions are driven from the Lut side")
+    }
+    fn conv_try(&self, _m: usize) -> Result<Self, ()> {
+        panic!("HARNESS: conversions are driven from the Lut side")
     }
     shared_methods!();
 }
